@@ -563,7 +563,10 @@ def _card_file(case):
     lines.append("")
     lines.append("mode n")
     card = CARD[case["kind"]]
-    lines.append(case.get("indent", "") + card + " " + " ".join(case["words"]))
+    if case.get("raw_card"):
+        lines += case["raw_card"]  # the card verbatim (several lines); `words` holds the same entries
+    else:
+        lines.append(case.get("indent", "") + card + " " + " ".join(case["words"]))
     if case.get("comment_after"):
         # the comment is handed to the next input: the card's last entry is then followed by a bare line break
         lines.append("c a comment behind the card")
@@ -686,6 +689,9 @@ def _run_card(case):
             ob["site"] = "format"
             return ob
         ob["text"] = _read_card(out, CARD[kind])
+        if case.get("keep"):
+            with open(out) as fh:
+                ob["kept"] = case["keep"] in fh.read()
         return ob
     finally:
         shutil.rmtree(d, ignore_errors=True)
@@ -732,6 +738,8 @@ def judge_card(case, ob):
         vals = vals  # every cell has an importance
     bad = ref.compare(ob["text"], vals)
     if bad is None:
+        if ob.get("kept") is False:
+            return (dict(kind_sig, **{"class": "comment-lost", "kind": first, "site": "consume"}), f"{case['keep']!r} is no longer in the written file")
         return None
     cls, kd, detail = bad
     return (dict(kind_sig, **{"class": cls, "kind": kd, "site": "format"}), f"{detail}; card text {ob['text']!r}")
